@@ -13,8 +13,10 @@ import (
 	"fmt"
 	"io"
 	"math/rand/v2"
+	"net/url"
 	"os"
 	"path/filepath"
+	"reflect"
 	"sort"
 	"strings"
 	"time"
@@ -76,6 +78,45 @@ func c15Gen(r *rand.Rand, tier string) any {
 	sc.Ops = append(sc.Ops, opSpec{Op: "build", Label: label})
 	sc.Mode = []string{"records", "records", "stream"}[r.IntN(3)]
 	return sc
+}
+
+// recordLabel maps a record file (relative to .dawn/build) to the label events carry for it;
+// "" if the name does not look like one (the harness does not otherwise rely on the scheme).
+func recordLabel(file string) string {
+	kind, rest, ok := strings.Cut(file, "/")
+	if !ok || (kind != "targets" && kind != "sources") {
+		return ""
+	}
+	name, err := url.PathUnescape(rest)
+	if err != nil {
+		return ""
+	}
+	i := strings.LastIndexByte(name, '/')
+	if i < 0 {
+		return ""
+	}
+	lbl := "//" + strings.TrimPrefix(name[:i], "/") + ":" + name[i+1:]
+	if kind == "sources" {
+		lbl = "source:" + lbl
+	}
+	return lbl
+}
+
+// semanticDamage: both byte strings are JSON objects and they differ as such (key case does
+// not count: encoding/json matches field names without regard to case).
+func semanticDamage(intact, damaged []byte) bool {
+	var a, b map[string]any
+	if json.Unmarshal(intact, &a) != nil || json.Unmarshal(damaged, &b) != nil {
+		return false
+	}
+	lower := func(m map[string]any) map[string]any {
+		out := map[string]any{}
+		for k, v := range m {
+			out[strings.ToLower(k)] = v
+		}
+		return out
+	}
+	return !reflect.DeepEqual(lower(a), lower(b))
 }
 
 // nearRerun: offset off lies in the field that marks an interrupted target.
@@ -703,6 +744,7 @@ func c15Exec(scAny any, c *simcheck.Ctx) *simcheck.Violation {
 				c.St.Count("loads_without_a_build_between_corruption_and_build", 1)
 				what += ", then a load without a build"
 			}
+			ev0 := len(h.w.events)
 			res := h.build(last, &op, pc, nil)
 			if res.Sim.Stuck {
 				v := narrow(simcheck.V("corrupt-record-hang", "%s: loading and building did not finish within 25 s of real time (the uncorrupted project takes milliseconds)", what), idx)
@@ -726,6 +768,22 @@ func c15Exec(scAny any, c *simcheck.Ctx) *simcheck.Violation {
 				// an index-only load builds nothing; it only has to load
 			default:
 				c.St.Count("built_despite_corruption", 1)
+				// "never as a target silently treated as up to date": a record whose content (as
+				// JSON, keys compared without case) is no longer what was written must not leave
+				// its target reported up to date without any error
+				if lbl := recordLabel(cr.File); lbl != "" && semanticDamage(recs[cr.File], data) {
+					upToDate, evaluated := false, false
+					for _, e := range h.w.events[ev0:] {
+						if e.Label == lbl {
+							upToDate = upToDate || e.Kind == "TargetUpToDate"
+							evaluated = evaluated || e.Kind == "TargetEvaluating" || e.Kind == "TargetFailed"
+						}
+					}
+					if upToDate && !evaluated {
+						return narrow(simcheck.V("corrupt-record-silently-up-to-date", "%s: the damaged record no longer says what was written, yet load and build reported no error and %s was reported up to date", what, lbl), idx)
+					}
+					c.St.Count("semantically_damaged_records_that_built", 1)
+				}
 				if v := h.checkCurrent(final.Label); v != nil {
 					v.Msg = what + ": " + v.Msg
 					v.Class = "corrupt-record-" + v.Class
